@@ -252,6 +252,12 @@ func c05AggrShapes(ai int, a c05Alias) []c05Shape {
 	case "n", "f", "l":
 		nm := ref.Name(a.name)
 		extra = []c05Shape{
+			// a grouped field defined through the alias that the aggregate argument also reads
+			{fields: []c05Field{{a.def, a.name}, {ref.Bin("*", nm.Clone(), ref.N(2)), "m"}, {ref.Call("sum", nm.Clone()), "sm"}}, where: ref.Bl(true), group: []string{a.name, "m"}, alias: ai},
+			{fields: []c05Field{{a.def, a.name}, {ref.Bin("+", nm.Clone(), ref.N(1)), "m"}, {ref.Call("max", nm.Clone()), "mx"}, cnt}, where: a.wheres[0], group: []string{"m", a.name}, alias: ai},
+			// a field that reads the alias of an aggregate of the same row
+			{fields: []c05Field{{ref.Call("substr", ref.Key(), ref.N(0), ref.N(2)), "p"}, cnt, {ref.Bin("/", ref.Call("sum", a.def), ref.Name("cnt")), "q"}}, where: ref.Bl(true), group: []string{"p"}, alias: ai},
+			{fields: []c05Field{{a.def, a.name}, cnt, {ref.Bin("+", ref.Name("cnt"), ref.Name("cnt")), "q"}}, where: ref.Bl(true), group: []string{a.name}, alias: ai},
 			{fields: []c05Field{{a.def, a.name}, {ref.Call("sum", nm), "sm"}}, where: ref.Bl(true), group: []string{a.name}, alias: ai},
 			{fields: []c05Field{{a.def, a.name}, {ref.Call("max", ref.Bin("+", nm.Clone(), ref.N(1))), "mx"}, cnt}, where: a.wheres[0], group: []string{a.name}, alias: ai},
 			{fields: []c05Field{{ref.Call("substr", ref.Key(), ref.N(0), ref.N(1)), "p"}, {ref.Call("sum", a.def), "sm"}}, where: ref.Bl(true), group: []string{"p"}, alias: ai},
@@ -259,6 +265,8 @@ func c05AggrShapes(ai int, a c05Alias) []c05Shape {
 	case "c", "u":
 		nm := ref.Name(a.name)
 		extra = []c05Shape{
+			{fields: []c05Field{{a.def, a.name}, {ref.Call("lower", nm.Clone()), "m"}, {ref.Call("group_concat", nm.Clone(), ref.S(",")), "gc"}}, where: ref.Bl(true), group: []string{a.name, "m"}, alias: ai},
+			{fields: []c05Field{{a.def, a.name}, cnt, {ref.Bin("*", ref.Name("cnt"), ref.N(2)), "q"}}, where: ref.Bl(true), group: []string{a.name}, alias: ai},
 			{fields: []c05Field{{a.def, a.name}, {ref.Call("group_concat", ref.Call("lower", nm), ref.S(",")), "gc"}}, where: ref.Bl(true), group: []string{a.name}, alias: ai},
 			{fields: []c05Field{{a.def, a.name}, {ref.Call("sum", ref.Call("strlen", nm)), "sl"}}, where: a.wheres[0], group: []string{a.name}, alias: ai},
 		}
